@@ -99,7 +99,7 @@ pub fn check(case: &Case) -> Verdict {
         } else {
             let exact_sum = if subtract { ma.sub(&mb) } else { ma.add(&mb) }.mul(&sa_inv);
             let xl = if ra.is_zero() { 0 } else { ra.log2_floor() };
-            let w = match amt::product_budget_reps(&[&rb, sb, &sa_inv], &[sa, sb]) {
+            let w = match amt::conversion_budget(&rb, sb, sa) {
                 None => Within::OutOfModel,
                 Some(_) if cfg!(not(feature = "dec")) && xl.abs() > 960 => Within::OutOfModel,
                 Some(by) => {
@@ -194,7 +194,7 @@ impl Property for C03 {
     }
     fn cases(&self, tier: Tier) -> u64 {
         match tier {
-            Tier::Quick => 40_000,
+            Tier::Quick => 200_000,
             Tier::Thorough => 3_000_000,
         }
     }
